@@ -77,9 +77,10 @@ static void run_wire(void)
     static cfg_t cfgs[1200];
     int nc = all_cfgs(cfgs, 1200, MO.thorough, 1);
     for (int ci = 0; ci < nc; ci++) {
-        for (int ct = CHKSUM_NONE; ct <= CHKSUM_CRC32; ct++) {
+        for (int ct = CHKSUM_NONE; ct <= CHKSUM_MD5; ct++) {       /* every defined checksum type (MD5: type byte 3, no checksum words) */
             int lm = (ci + ct) % 5;
             if (!MO.thorough && ct == CHKSUM_NONE && ci % 3) continue;
+            if (!MO.thorough && ct == CHKSUM_MD5 && ci % 3 != 1) continue;
             cfg_t c = cfgs[ci]; c.ct = ct;
             set_legacy(lm);
             char ck[96]; cfg_key(&c, ck, sizeof ck);
@@ -512,6 +513,23 @@ static void run_checksum(void)
                     /* payload corruption: every single-bit flip for short payloads, bursts otherwise */
                     int f0 = (si + ci) % n;
                     uint8_t *f = malloc(s->flen);
+                    /* a mismatch flag already stored in an acceptable header says nothing: the query reports a mismatch
+                     * exactly when the payload's CRC differs, so an intact payload must come back with mismatch = 0 */
+                    if (mon_case("%s|len=%llu|frag=%d|stored-mismatch-flag", x.ck, (unsigned long long)s->len, f0)) {
+                        static const uint8_t flagv[] = { 1, 0xff, 0x80, 2 };
+                        for (int q = 0; q < 12; q++) {
+                            memcpy(f, s->frag[(f0 + q) % n], s->flen);
+                            f[REF_OFF_MISMATCH] = flagv[q % 4];
+                            char w[96];
+                            if (q % 3 == 0) { ref_hdr_reseal(f, 0); snprintf(w, sizeof w, "stored mismatch flag %02x, re-sealed (standard CRC), payload intact", flagv[q % 4]); }
+                            else if (q % 3 == 1) { ref_hdr_reseal(f, 1); snprintf(w, sizeof w, "stored mismatch flag %02x, re-sealed (historical CRC), payload intact", flagv[q % 4]); }
+                            else { ref_put32(f + REF_OFF_LIBVER, 0x010100 + (uint32_t)q); snprintf(w, sizeof w, "stored mismatch flag %02x in a pre-1.2.0 header (no metadata CRC), payload intact", flagv[q % 4]); }
+                            check_mismatch(&x, f, s->flen, w, 1, 1);
+                            mon_count("stored_flag_cases", 1);
+                            mon_distinct("nontrivial", mon_hash(f, 80, 53));
+                        }
+                        mon_end();
+                    }
                     if (P <= (MO.thorough ? 1024u : 256u)) {
                         for (uint64_t base = 0; base < P; base += 16) {
                             if (!mon_case("%s|len=%llu|frag=%d|payload-bitflips@%llu", x.ck, (unsigned long long)s->len, f0, (unsigned long long)base)) continue;
@@ -569,8 +587,9 @@ static void run_endian(void)
     static cfg_t cfgs[1200];
     int nc = all_cfgs(cfgs, 1200, MO.thorough, 1);
     for (int ci = 0; ci < nc; ci++) {
-        for (int ct = CHKSUM_NONE; ct <= CHKSUM_CRC32; ct++) {
+        for (int ct = CHKSUM_NONE; ct <= CHKSUM_MD5; ct++) {
             if (!MO.thorough && ct == CHKSUM_NONE && ci % 2) continue;
+            if (!MO.thorough && ct == CHKSUM_MD5 && ci % 4 != 2) continue;
             cfg_t c = cfgs[ci]; c.ct = ct;
             int lm = (ci % 4 == 1) ? 3 : 0;
             set_legacy(lm);
